@@ -352,6 +352,40 @@ func verdictClass(expr string, n promParser.Node, s utils.Source) string {
 	return ""
 }
 
+// classRows mirrors Model.PromClass.class_rows: one row per binary node in pre-order --
+// [k1_class; k2_class; k6_class; k7_op lhs; k7_op rhs] ++ (for a vector/vector node) k3_mech per label of pqTemplateVars.
+// The correspondence check compares it with the Gallina definitions on every case (tag "classes"), so the guard
+// predicates of theorem C12_impossible_sound are the predicates this harness classifies with.
+func classRows(root promParser.Node) string {
+	rows := []string{}
+	for _, n := range pqNodes(root) {
+		b, ok := n.(*promParser.BinaryExpr)
+		if !ok {
+			continue
+		}
+		cmp := b.Op.IsComparisonOperator()
+		vm := b.VectorMatching
+		row := []string{
+			coqBool(cmp && b.ReturnBool),
+			coqBool(b.Op == promParser.LOR && vm != nil && !(vm.On && len(vm.MatchingLabels) == 0)),
+			coqBool(cmp && !(constValOK(b.LHS) && constValOK(b.RHS))),
+			coqBool(k7Decider(b.LHS)),
+			coqBool(k7Decider(b.RHS)),
+		}
+		if vm != nil {
+			many := b.LHS
+			if vm.Card == promParser.CardOneToMany {
+				many = b.RHS
+			}
+			for _, l := range pqTemplateVars {
+				row = append(row, coqBool(k3Mechanism(b, many, l)))
+			}
+		}
+		rows = append(rows, coqList(row))
+	}
+	return coqList(rows)
+}
+
 // verdictClassOf: first known class among the dead branches `cands` of node `n`, in the priority order given.
 func verdictClassOf(expr string, n promParser.Node, cands []utils.Source, order []string) string {
 	found := map[string]bool{}
@@ -1070,8 +1104,8 @@ func runPromql(prop string, args []string) int {
 		if pr.keep {
 			rep.Cases[fmt.Sprintf("%d", id)] = base
 		}
-		cw.add(fmt.Sprintf("{| c_id := %s; c_expr := %s;\n   c_sources := %s;\n   c_tmpl_vars := %s; c_tmpl_missing := %s; c_impossible := %s; c_musthave := %s;\n   c_dbs := %s |}",
-			coqN(id), term, coqSources(srcs), coqStrList(pqTemplateVars), coqStrList(missing), coqN(len(impossible)), coqStrList(mh), coqList(dbTerms)))
+		cw.add(fmt.Sprintf("{| c_id := %s; c_expr := %s;\n   c_sources := %s;\n   c_tmpl_vars := %s; c_tmpl_missing := %s; c_impossible := %s; c_musthave := %s;\n   c_classes := %s;\n   c_dbs := %s |}",
+			coqN(id), term, coqSources(srcs), coqStrList(pqTemplateVars), coqStrList(missing), coqN(len(impossible)), coqStrList(mh), classRows(root), coqList(dbTerms)))
 		id++
 	}
 	cw.flush()
